@@ -209,7 +209,53 @@ def _py_preset(desc) -> Built:
     return Built(desc, mod, ns, [Name, Num, Both, Many, Scaled, Program], Program, {})
 
 
-PYTHON_GRAMMARS = {"preset": _py_preset}
+def _py_context(desc) -> Built:
+    """The documented context idiom (tests/representations/dependent_types_context_test.py): a user metahandler hands a
+    list of names to the production it creates through `initial_values`. Here the owner keeps ONE GengyList (a prelude
+    of names that grows while the session goes on) and hands that same object over every time: what the library puts
+    into a program has to be the program's own."""
+    from abc import ABC as _ABC
+
+    from geneticengine.grammar.metahandlers.base import MetaHandlerGenerator
+    from geneticengine.grammar.metahandlers.ints import IntRange
+    from geneticengine.solutions.tree import GengyList
+
+    modname = f"gev_dyn_{next(_counter)}_{desc.get('name', 'py')}"
+    mod = types.ModuleType(modname)
+    sys.modules[modname] = mod
+
+    def mk(name, bases, fields):
+        cls = type(name, bases, {"__module__": modname, "__qualname__": name})
+        cls.__annotations__ = dict(fields)
+        return cls
+
+    Expr = type("Expr", (_ABC,), {"__module__": modname})
+    prelude = GengyList(Expr, [])  # the owner's list (the session appends expressions the library itself created)
+
+    class Context(MetaHandlerGenerator):
+        def generate(self, random, grammar, base_type, rec, dependent_values):
+            return rec(base_type, initial_values={"names": prelude})
+
+        def validate(self, v):
+            return True
+
+        def __repr__(self):
+            return "Context"
+
+    Num = mk("Num", (Expr,), [("n", Annotated[int, IntRange(0, 3)])])
+    Pair = mk("Pair", (Expr,), [("l", Expr), ("r", Expr)])
+    Scope = mk("Scope", (), [("names", list[Expr]), ("body", Expr)])
+    Program = mk("Program", (), [("scope", Annotated[Scope, Context()]), ("k", Annotated[int, IntRange(0, 1)])])
+    ns = {"prelude": prelude}
+    for c in (Expr, Num, Pair, Scope, Program):
+        if c is not Expr:
+            dataclass(c)
+        setattr(mod, c.__name__, c)
+        ns[c.__name__] = c
+    return Built(desc, mod, ns, [Num, Pair, Scope, Program], Program, {})
+
+
+PYTHON_GRAMMARS = {"preset": _py_preset, "context": _py_context}
 FIXED_PYTHON = [{"name": "py_preset", "python": "preset", "abstracts": [], "prods": [], "start": "Program"}]
 
 
